@@ -384,7 +384,7 @@ func observeC03(r *astRun) c03Obs {
 			o.Methods = append(o.Methods, []interface{}{en.ref, []ref{in, out}})
 		case pgs.Message:
 			if xs := x.Extensions(); len(xs) > 0 {
-				o.Applied = append(o.Applied, []interface{}{en.ref, refsOfExts(r, xs)})
+				o.Applied = append(o.Applied, []interface{}{en.ref, sortRefs(refsOfExts(r, xs))}) // as a set: the order of Extensions() is not specified
 			}
 		}
 	}
